@@ -64,6 +64,9 @@ def stmts(limits):
     s['NOT'] = op('NOT')
     s['GETMSG'] = op('GET_MESSAGE') + b'\x00'
     s['FILL'] = op('TRUE') * (min(mi, 300) + 1)
+    # items that did not come from the stack: the error record of a failed TRY, read back from the cache
+    s['TRYFAIL @E'] = op('TRY_EXCEPT') + blk(op('FALSE') + op('VERIFY')) + blk(b'') + op('READ_CACHE') + b'\x01E'
+    s['TRY{GETV long} @E'] = op('TRY_EXCEPT') + blk(op('GET_VALUE') + bytes([200]) + b'k' * 200) + blk(b'') + op('READ_CACHE') + b'\x01E'
     s['LOOP{CALL}'] = op('DEF') + b'\x02' + blk(b'') + op('TRUE') + op('LOOP') + blk(op('CALL') + b'\x02')
     return s
 
@@ -325,6 +328,14 @@ def family_deprecated(ctx, name):
     ctx.evaluations += n - 1
 
 
+def family_bitwise(ctx, case):
+    """every instruction that pads / combines two items of different lengths ends (and stays inside the item-size limit)"""
+    name, la, lb, limits = case
+    script = P(b'\x3c' * la) + P(b'\xf0' * lb) + op(name) + (b'\x02' if name == 'ADD_INTS' else b'')
+    ctx.state((name, la, lb, limits))
+    check_run(ctx, script, limits, {'family': 'F operands of different lengths', 'op': name})
+
+
 def family_b(ctx, names):
     """every byte-prefix of the program (truncated operands) under the default limits"""
     lim = (1024, 1024, 128)
@@ -518,6 +529,10 @@ def blocks(tier, seed):
         Block('A5_deprecated_entry_point', list(NAMES), family_deprecated,
               'every hungry statement (+ a stack filler) x 7 limit triples with max_items != max_item_size, positional and keyword limits, '
               'run_auth_script vs run_auth_scripts', nshards=32),
+        Block('F_length_pairs', [(nm, la, lb, lim) for nm in ('AND', 'OR', 'XOR', 'CONCAT', 'CONCAT_STR', 'EQUAL', 'LESS', 'ADD_INTS')
+                                 for la, lb in ((1, 2), (2, 1), (0, 3), (3, 0), (1, 64), (64, 1), (8, 8)) for lim in ((1024, 1024, 128), (4, 64, 4), (4, 8, 4))
+                                 if nm != 'ADD_INTS' or True], family_bitwise,
+              'two-operand instructions x operand length pairs (shorter / longer / empty on either side) x 3 limit triples', nshards=64, backstop=15),
         Block('B_truncations', pairs, family_b, 'every byte-prefix of every <=2 statement program', nshards=64),
         Block('B2_malformed_control', lambda s, n: spaces.malformed(2, 'full', s, n), family_b2,
               'every byte-prefix and single-byte perturbation of every full-grammar program with <= 2 nodes (taken and not-taken bodies)',
